@@ -311,7 +311,7 @@ void small_free_memory_list::deallocate(void* mem) noexcept
     auto info =
         allocator_info(FOONATHAN_MEMORY_LOG_PREFIX "::detail::small_free_memory_list", this);
 
-    auto node = static_cast<unsigned char*>(detail::debug_fill_free(mem, node_size_, 0));
+    auto node = static_cast<unsigned char*>(mem);
 
     auto chunk     = find_chunk_impl(node);
     dealloc_chunk_ = chunk;
@@ -326,6 +326,8 @@ void small_free_memory_list::deallocate(void* mem) noexcept
 
     auto index = offset / node_size_;
     FOONATHAN_MEMORY_ASSERT(index < chunk->no_nodes);
+    // fill only after the checks, it would overwrite the index of a node that is already free
+    detail::debug_fill_free(mem, node_size_, 0);
     chunk->deallocate(node, static_cast<unsigned char>(index));
 
     ++capacity_;
